@@ -16,9 +16,9 @@
     symbol records without STACK CFI). The hypothesis is the decidable predicate `preFp`
     (`MdModel/Walk/Layout.lean`), stated on memory words only; the `chain` engine has the driver
     evaluate it (`Pre`) on every generated case.
-    Windows x86-64 (record up to 240 bytes above `rbp`, probed in 16-byte steps) is covered by `Pre`
-    and by the tie (generated chains with slack), not by a theorem: `walk_layout_fp_win` is stated
-    below as a comment.
+    Windows x86-64 (record up to 240 bytes above `rbp`, probed in 16-byte steps): PROVED as
+    `walk_layout_fp_win` for chains of any depth, under `preFpWin` (= `preFp` with an 8-byte aligned
+    outermost record at or above the last stack pointer).
   * scan-only chains — PROVED for chains of ANY depth on ARM64 (both layouts) and MIPS64
     (`walk_layout_scan`, `walk_layout_scan_concrete`; hypothesis `preScan`: junk words below 4096
     that are not valid instructions, inside the 160/40-word (MIPS64: 128-word) window, then a valid
@@ -27,11 +27,18 @@
   * canonical STACK CFI chains — the precondition `preCfi` is defined and evaluated on every
     generated case, the tie compares `walk_stack`, the generated chain and the model for all seven
     context kinds/modes, but the induction theorem is only stated (comment `walk_layout_cfi`).
-  * STACK WIN, technique mixed per frame — not modelled / not generated (the `walk` engine of C05
-    exercises mixed stacks against the model, without an expected chain).
+  * technique changing from frame to frame — the model (`mkEnvW`, MdModel/Walk/WinWalk.lean) and the
+    precondition `PreW` (MdModel/Walk/LayoutMixed.lean) cover all four techniques on all
+    architectures and are evaluated / compared on every generated `mixed` and `win` case. PROVED:
+    `walk_layout_mixed_partial` — ARM64 (both layouts) stacks mixing frame-pointer records and
+    scanned frames in any order, any depth — through the generic chain induction
+    `walkLoop_chain_generic` (Lemmas/WalkChainMixed.lean). The full statements `walk_layout_mixed`
+    and `walk_layout_win` (x86 STACK WIN chains) are comments below.
 -/
 import MdProofs.Lemmas.WalkChain
 import MdProofs.Lemmas.WalkScanChain
+import MdProofs.Lemmas.WalkChainMixed
+import MdProofs.Lemmas.WalkFpWin
 namespace MdModel.Walk
 open MdModel
 
@@ -141,6 +148,25 @@ theorem walk_layout_fp_concrete (a : Arch) (os : Os) (w : World) (mem : Mem) (ct
   obtain ⟨hm, ⟨hno, hv⟩, hp⟩ := hpre
   exact walk_layout_fp (mkEnv a os w mem) a rfl ha hwin (mkEnv_noCfi a os w mem hno) mem hm ctx hv h64 chain hp
 
+/-- **C04, frame-pointer chains on Windows x86-64 (any depth).** "…a Windows x64 240-byte
+    frame-pointer slack…": with the frame record up to 15 × 16 bytes above `rbp` (the smaller probe
+    positions holding a zero "saved rbp"), in an environment without CFI the walker returns exactly
+    the context frame and one `frame_pointer` frame per generated call, and stops at the generated
+    end (`preFpWin` = `preFp` plus: the outermost record `(0, 0)` lies 8-byte aligned at or above the
+    last stack pointer, so that every further probe reads a zero word or nothing). -/
+theorem walk_layout_fp_win (env : Env) (harch : env.arch = .amd64) (hos : env.os = .windows)
+    (hcfi : NoCfi env) (mem : Mem) (hm : mem.range?.isSome = true) (ctx : Ctx) (hv : ctx.valid = none)
+    (h64 : ctx.m64 = false) (chain : List Exp)
+    (hpre : preFpWin env.os env.mask mem ctx.sp (ctx.raw .amd64 Arch.amd64.fpName) chain = true) :
+    walk env (some mem) ctx = symbolise env (Frame.ofCtx ctx .context) :: expectedFp env .amd64 chain := by
+  have hused : (some mem).bind (fun m => m.range?.map fun _ => m) = some mem := by
+    obtain ⟨r, hr⟩ := Option.isSome_iff_exists.mp hm
+    simp [hr]
+  unfold walk
+  simp only [hused]
+  exact walkLoop_fp_win_chain harch hos hcfi chain (walkFuel mem) (Frame.ofCtx ctx .context) none ctx.sp _
+    (view_context .amd64 rfl ctx hv h64) hpre (need_context_le mem ctx)
+
 /-! ### the numbers of the property text are the numbers of the code
 
   `Pre` uses the property's numbers as literals; the model uses the constants translated from the
@@ -194,12 +220,59 @@ theorem walk_layout_scan_concrete (a : Arch) (os : Os) (w : World) (mem : Mem) (
   obtain ⟨hm, hno, ⟨⟨⟨_, hv⟩, hfp⟩, _⟩, hp⟩ := hpre
   exact walk_layout_scan (mkEnv a os w mem) a rfl ha (mkEnv_noCfi a os w mem hno) mem hm ctx hv hfp h64 chain hp
 
+/-- **C04, technique changing from frame to frame (partial: ARM64, frame pointer / scan).**
+    "…laid out by the platform calling convention (frame-pointer chains) … or findable only by
+    scanning …": on ARM64 (both context layouts), in an environment without CFI, a stack in which
+    every frame is EITHER a frame-pointer record (`linkFp`) OR findable only by scanning
+    (`linkScan`, the callee's frame pointer being invalid or 0) — in any order, to any depth — is
+    walked to exactly the generated frames: each with its own technique label (`frame_pointer` /
+    `scan`), return address, stack pointer, recovered frame pointer, and the walk stops at the
+    generated end. PARTIAL with respect to the full statement `walk_layout_mixed` (comment below):
+    two of the four techniques, one architecture family. -/
+theorem walk_layout_mixed_partial (env : Env) (a : Arch) (ha : a = .arm64 ∨ a = .arm64old)
+    (harch : env.arch = a) (hcfi : NoCfi env) (mem : Mem) (hm : mem.range?.isSome = true)
+    (ctx : Ctx) (hv : ctx.valid = none) (h64 : ctx.m64 = false) (chain : List Exp)
+    (hpre : preMix env a mem { sp := ctx.sp, fp := some (ctx.raw a a.fpName), first := true } chain = true) :
+    walk env (some mem) ctx =
+      symbolise env (Frame.ofCtx ctx .context) ::
+        expectedMix env a { sp := ctx.sp, fp := some (ctx.raw a a.fpName), first := true } chain := by
+  have hused : (some mem).bind (fun m => m.range?.map fun _ => m) = some mem := by
+    obtain ⟨r, hr⟩ := Option.isSome_iff_exists.mp hm
+    simp [hr]
+  unfold walk
+  simp only [hused]
+  rw [expectedMix_foldr]
+  rw [preMix_foldr] at hpre
+  exact walkLoop_chain_generic (MixView a) (mixLink env a mem) (mixEnd env a mem) (fun st => st.sp)
+    (mixFrame a) mixNext (fun f st h => h.1) (fun f st h => h)
+    (step_mix_arm64 ha harch hcfi) (mixNext_view ha) (step_mix_end_arm64 ha harch hcfi)
+    chain (walkFuel mem) (Frame.ofCtx ctx .context) none _ (mix_view_context a ha ctx hv h64) hpre
+    (need_context_le mem ctx)
+
+/-- the frames of a mixed chain carry their own technique label -/
+theorem expectedMix_trust (env : Env) (a : Arch) (ha : a = .arm64 ∨ a = .arm64old) (st : MixSt) (e : Exp)
+    (rest : List Exp) :
+    (expectedMix env a st (e :: rest)).head?.map (·.trust) = some (if e.tech = "fp" then Trust.fp else Trust.scan) := by
+  simp only [expectedMix, List.head?_cons, Option.map_some, symbolise_trust, mixFrame]
+  rcases ha with ha | ha <;> subst ha <;> by_cases h : e.tech = "fp" <;> simp [h, fpFrame, scanFrame]
+
 /-
   Stated, not proved (the tie checks them on every generated case; see the header):
 
-  theorem walk_layout_fp_win : the same as `walk_layout_fp` with `a = .amd64`, `env.os = .windows`
-      (`linkFp` then allows the record at `rbp + 16k`, `k ≤ 15`, with zero words at the smaller
-      probe positions).
+  theorem walk_layout_mixed (a : Arch) (os : Os) (w : World) (wins : List (List Win.Rec)) (mem : Mem)
+      (ctx : Ctx) (chain : List Exp) :
+      PreW w wins (mkEnvW a os w wins mem) a os mem ctx chain = true →
+      walk (mkEnvW a os w wins mem) (some mem) ctx = context frame :: one frame per `e ∈ chain` with
+        trust by `e.tech` (cfi / frame_pointer / scan; `win` ↦ cfi), ip = e.ret, sp = e.sp, frame
+        pointer `e.fp` and registers `e.regs` valid with these values
+      — `PreW` (MdModel/Walk/LayoutMixed.lean) is evaluated on every generated `mixed` / `win` case;
+      proved part: `walk_layout_mixed_partial` (ARM64, fp / scan) and the generic chain induction
+      `walkLoop_chain_generic` every technique plugs into.
+  theorem walk_layout_win : the instance of `walk_layout_mixed` for x86 chains all of whose frames
+      are found through STACK WIN records (frame data with the standard prologue program and its
+      `.raSearch` variants, FPO with and without a base pointer, grand-callee parameter sizes,
+      the leftover-return-address skip on the context frame only).
+
   theorem walk_layout_scan' : `walk_layout_scan` for x86, x86-64, ARM32 and MIPS32
       (`Pre … .scan` already states their preconditions: junk below 4096 defeats the frame-pointer
       recovery of the x86 scanners; MIPS32 skips 4 words on every frame but the first).
@@ -228,6 +301,52 @@ example : (walk { arch := .amd64, os := .other, cfi := fun _ _ => none, instrOk 
                   symb := fun _ => (none, none), mask := 0 }
       (some exChainMem) { ip := 0x7000, sp := 4096, rest := [("rbp", 4096)] }).length = 3 := by
   rw [walk_layout_fp _ .amd64 rfl rfl (fun _ => by decide) (fun _ _ => rfl) exChainMem (by decide) _ rfl rfl exChain (by decide)]
+  rfl
+
+/-! ## non-vacuity: an ARM64 stack with one frame-pointer frame followed by one scanned frame -/
+
+def exMixMem : Mem :=
+  { base := 4096, bytes := #[
+      0, 0, 0, 0, 0, 0, 0, 0,         0, 0, 0, 0, 0, 0, 0, 0,
+      0, 0, 0, 0, 0, 0, 0, 0,         0x00, 0x50, 0, 0, 0, 0, 0, 0,    -- record at 0x1010: fp 0, ret 0x5000
+      7, 0, 0, 0, 0, 0, 0, 0,         0x00, 0x60, 0, 0, 0, 0, 0, 0,    -- junk 7, then 0x6000 (found by scan)
+      0, 0, 0, 0, 0, 0, 0, 0,         0, 0, 0, 0, 0, 0, 0, 0 ] }
+
+def exMixEnv : Env :=
+  { arch := .arm64, os := .other, cfi := fun _ _ => none, instrOk := fun ip => ip == 0x6000,
+    symb := fun _ => (none, none), mask := 2 ^ 47 - 1 }
+
+def exMixChain : List Exp :=
+  [ { ret := 0x5000, sp := 0x1020, fp := some 0, tech := "fp" },
+    { ret := 0x6000, sp := 0x1030, fp := none, tech := "scan" } ]
+
+example : preMix exMixEnv .arm64 exMixMem { sp := 0x1000, fp := some 0x1010, first := true } exMixChain = true := by
+  decide
+
+example : (walk exMixEnv (some exMixMem) { ip := 0x7000, sp := 0x1000, rest := [("fp", 0x1010)] }).map (·.trust) =
+    [.context, .fp, .scan] := by
+  rw [walk_layout_mixed_partial exMixEnv .arm64 (Or.inl rfl) rfl (fun _ _ => rfl) exMixMem (by decide) _ rfl rfl
+    exMixChain (by decide)]
+  rfl
+
+/-! ## non-vacuity: a Windows x86-64 frame whose record sits 16 bytes above `rbp` -/
+
+def exWinMem : Mem :=
+  { base := 4096, bytes := #[
+      0, 0, 0, 0, 0, 0, 0, 0,         0, 0, 0, 0, 0, 0, 0, 0,          -- probe 0 at rbp = 0x1000: "saved rbp" 0
+      0x40, 0x10, 0, 0, 0, 0, 0, 0,   0x00, 0x50, 0, 0, 0, 0, 0, 0,    -- record at rbp + 16: fp 0x1040, ret 0x5000
+      0, 0, 0, 0, 0, 0, 0, 0,         0, 0, 0, 0, 0, 0, 0, 0,
+      0, 0, 0, 0, 0, 0, 0, 0,         0, 0, 0, 0, 0, 0, 0, 0,
+      0, 0, 0, 0, 0, 0, 0, 0,         0, 0, 0, 0, 0, 0, 0, 0 ] }          -- outermost record at 0x1040: (0, 0)
+
+def exWinChain : List Exp := [ { ret := 0x5000, sp := 0x1020, fp := some 0x1040 } ]
+
+example : preFpWin .windows 0 exWinMem 4096 4096 exWinChain = true := by decide
+
+example : (walk { arch := .amd64, os := .windows, cfi := fun _ _ => none, instrOk := fun _ => true,
+                  symb := fun _ => (none, none), mask := 0 }
+      (some exWinMem) { ip := 0x7000, sp := 4096, rest := [("rbp", 4096)] }).length = 2 := by
+  rw [walk_layout_fp_win _ rfl rfl (fun _ _ => rfl) exWinMem (by decide) _ rfl rfl exWinChain (by decide)]
   rfl
 
 end MdModel.Walk
